@@ -342,8 +342,9 @@ def gen_conc_segments(nseg, seed, nthreads=(2, 4), oplen=(3, 14), prefix='conc')
     out = []
     bounds = [(1, 1), (0, 1), (1, 2), (2, 2), (0, INF), (1, INF), (2, 3)]
     for n in range(nseg):
-        T = rnd.randint(*nthreads)
-        T = min(T, 3)                       # 3 threads x 2 slots = 6 slots, 3 objects, 3 monitors
+        TT = rnd.choice([2, 2, 3, 3, 3, 4, 5, 6, 8]) if nthreads == (2, 4) else rnd.randint(*nthreads)
+        T = min(TT, 3)                      # 3 owner threads x 2 slots = 6 slots, 3 objects, 3 monitors
+        callers = TT - T                    # further threads own nothing: they call the shared mock and query the shared sequences
         lines = ['pre mock 0', 'pre seq 1', 'pre seq 2']
         for t in range(T):
             if t + 1 < NM_ID:
@@ -462,6 +463,12 @@ def gen_conc_segments(nseg, seed, nthreads=(2, 4), oplen=(3, 14), prefix='conc')
                         continue
                     lines.append('thr %d dmock %d' % (t, own_mock)); own_mock_alive = False
                 cnt += 1
+        for c in range(callers):
+            for _ in range(rnd.randint(2, 8)):
+                if rnd.random() < 0.8:
+                    lines.append('thr %d call 0 %d %d 0' % (T + c, rnd.choice([1, 1, 1, 4]), rnd.choice([0, 1])))
+                else:
+                    lines.append('thr %d iscompleted %d' % (T + c, rnd.choice([1, 2])))
         out.append(('%s-%d-%d' % (prefix, seed, n), lines))
     return out
 
